@@ -36,6 +36,7 @@ def check (name : String) (path : Path) (k : Nat) (flag : Bool) (before after : 
   | "insert_pass" =>
     same (rewriteAt (if flag then insertPassBefore else insertPassAfter) path before) after
   | "reorder_stmts" => same (rewriteAt reorderStmts path before) after
+  | "reorder_loops" => same (rewriteAt reorderLoops path before) after
   | "cut_loop" =>
     match sb, sa with
     | .loop i _ _ b _ :: _, .loop _ _ mid _ _ :: .loop i2 _ _ b2 _ :: _ =>
